@@ -205,7 +205,11 @@ def report(pid, tier, seed, pc, results, wall, scratch):
     nviol = 0
     if failures:
         os.makedirs(out_dir, exist_ok=True)
+    seen_obl = set()
     for (r, f) in failures:
+        if f["obligation"] in seen_obl:
+            continue
+        seen_obl.add(f["obligation"])
         kf = match_known(known, pid, f["obligation"])
         if kf:
             known_lines.append(f"KNOWN-FINDING: property={pid} {kf['what']}")
